@@ -175,7 +175,25 @@ impl CheckReader {
         Self { source, region }
     }
 
+    fn check_range(&self, offset: Offset, size: ASize) -> Result<()> {
+        let in_bounds = offset
+            .into_u64()
+            .checked_add(size.into_u64())
+            .is_some_and(|end| end <= self.region.size().into_u64());
+        if in_bounds {
+            Ok(())
+        } else {
+            Err(format_error!(&format!(
+                "Range (offset {}, size {}) is out of reader of size {}",
+                offset.into_u64(),
+                size.into_u64(),
+                self.region.size().into_u64()
+            )))
+        }
+    }
+
     pub(crate) fn create_parser(&self, offset: Offset, size: ASize) -> Result<impl Parser + '_> {
+        self.check_range(offset, size)?;
         let region = self.region.cut_rel_asize(offset, size);
         let slice = self.source.get_slice(region, BlockCheck::None)?;
         Ok(SliceParser::new(slice, self.region.begin() + offset))
@@ -191,6 +209,7 @@ impl CheckReader {
         T::parse(&mut parser)
     }
     pub fn get_slice(&self, offset: Offset, size: ASize) -> Result<Cow<[u8]>> {
+        self.check_range(offset, size)?;
         let region = self.region.cut_rel_asize(offset, size);
         self.source.get_slice(region, BlockCheck::None)
     }
